@@ -14,6 +14,7 @@
  */
 #define _GNU_SOURCE
 #include <stdio.h>
+#include <sys/mman.h>
 #include <stdlib.h>
 #include <string.h>
 #include <stdint.h>
@@ -177,8 +178,15 @@ struct hdr {
     struct hdr* prev;
     struct hdr* next;     /* live list, or quarantine FIFO */
     uint64_t serial;
-    unsigned char pad[HDR - 40];
+    uint64_t maplen;      /* != 0: guard block, mmap'ed region of this length starting at 'base', last page PROT_NONE */
+    unsigned char* base;
+    unsigned char pad[HDR - 56];
 };
+/* guard blocks (level 3): the payload ends (up to 15 bytes of canary-filled slack) right in front of an inaccessible page, so that a READ or write
+ * past the end of an array faults at once; released guard blocks are unmapped, so any later access faults as well */
+static size_t guard_min = 0;
+static uint64_t st_guard = 0;
+#define VPAGE 4096UL
 static int alloc_level = 0;
 static struct hdr* live_head = NULL;
 static struct hdr* q_head = NULL;   /* oldest */
@@ -252,6 +260,15 @@ static int check_canaries(struct hdr* h, const char* what){
         return 1;
     }
     unsigned char* t = P(h) + h->size;
+    if (h->maplen){
+        int slack = (int)((h->base + h->maplen - VPAGE) - t);
+        for (int i = 0; i < slack; i++) if (t[i] != CANARY){
+            herr("heap: slack behind guarded block overwritten (%s) block size=%lu serial=%lu byte +%d", what, (unsigned long)h->size, (unsigned long)h->serial, i);
+            memset(t, CANARY, slack);
+            return 1;
+        }
+        return 0;
+    }
     for (int i = 0; i < TAIL; i++) if (t[i] != CANARY){
         herr("heap: tail canary overwritten (%s) block size=%lu serial=%lu byte +%d", what, (unsigned long)h->size, (unsigned long)h->serial, i);
         memset(t, CANARY, TAIL);
@@ -261,13 +278,28 @@ static int check_canaries(struct hdr* h, const char* what){
 }
 
 static void* v_alloc(size_t size, int zero){
-    struct hdr* h = __real_malloc(HDR + size + TAIL);
-    if (!h) return NULL;
+    struct hdr* h;
+    if (guard_min && size >= guard_min){
+        size_t sz16 = (size + 15) & ~(size_t)15;
+        size_t maplen = ((HDR + sz16 + VPAGE - 1) & ~(VPAGE - 1)) + VPAGE;
+        unsigned char* base = mmap(NULL, maplen, PROT_READ | PROT_WRITE, MAP_PRIVATE | MAP_ANONYMOUS, -1, 0);
+        if (base == MAP_FAILED) return NULL;
+        mprotect(base + maplen - VPAGE, VPAGE, PROT_NONE);
+        unsigned char* payload = base + maplen - VPAGE - sz16;
+        h = (struct hdr*)(payload - HDR);
+        h->maplen = maplen; h->base = base;
+        st_guard++;
+    }else{
+        h = __real_malloc(HDR + size + TAIL);
+        if (!h) return NULL;
+        h->maplen = 0; h->base = NULL;
+    }
     h->magic = MAGIC_LIVE; h->size = size; h->serial = ++serial;
     memset(h->pad, CANARY, sizeof(h->pad));
     memset(P(h), zero ? 0 : fill_malloc, size);
     if (!zero && fill_malloc != FILL_MALLOC) st_fill_alt++;
-    memset(P(h) + size, CANARY, TAIL);
+    if (h->maplen) memset(P(h) + size, CANARY, (h->base + h->maplen - VPAGE) - (P(h) + size));
+    else memset(P(h) + size, CANARY, TAIL);
     h->prev = NULL; h->next = live_head;
     if (live_head) live_head->prev = h;
     live_head = h;
@@ -313,6 +345,11 @@ static void q_evict(uint64_t keep){
 static void v_release(struct hdr* h){
     check_canaries(h, "free");
     live_unlink(h);
+    if (h->maplen){
+        set_del((uintptr_t)P(h));
+        munmap(h->base, h->maplen);     /* any later access to the block faults */
+        return;
+    }
     if (alloc_level >= 2){
         h->magic = MAGIC_FREE;
         memset(P(h), FILL_FREE, h->size);
@@ -365,9 +402,10 @@ void* __wrap_realloc(void* p, size_t size){
     return q;
 }
 
-EXP void verif_alloc_level(int level){ alloc_level = level; }
+EXP void verif_alloc_level(int level){ alloc_level = level > 2 ? 2 : level; guard_min = level > 2 ? 128 : 0; }
 EXP void verif_alloc_fill(int byte){ fill_malloc = byte & 0xff; }
 EXP int verif_alloc_get_level(void){ return alloc_level; }
+EXP uint64_t verif_alloc_guarded(void){ return st_guard; }
 /* returns number of problems; message of the first one via verif_heap_error() */
 EXP int verif_heap_audit(void){
     for (struct hdr* h = live_head; h; h = h->next){
@@ -389,9 +427,9 @@ EXP void verif_heap_stats(uint64_t* out){
 }
 /* cumulative seam activity, for the evidence: [0] allocations served by the hostile allocator, [1] reallocs that were forced to move, [2] blocks
  * poisoned on free, [3] allocations filled with a non-default garbage byte, [4] clock reads answered by the simulated clock, [5] clock jumps,
- * [6] fwrite/fopen/fclose events logged */
+ * [6] fwrite/fopen/fclose events logged, [7] allocations placed in front of a guard page */
 EXP void verif_seam_counters(uint64_t* out){
-    out[0] = alloc_level ? st_malloc : 0; out[1] = st_moved; out[2] = st_free; out[3] = st_fill_alt; out[4] = clock_calls; out[5] = clock_jumps; out[6] = wlog_total;
+    out[0] = alloc_level ? st_malloc : 0; out[1] = st_moved; out[2] = st_free; out[3] = st_fill_alt; out[4] = clock_calls; out[5] = clock_jumps; out[6] = wlog_total; out[7] = st_guard;
 }
 /* is p inside a live block we own?  (used by oracles: "pointer into particle storage") */
 EXP int64_t verif_heap_block_size(void* p){
